@@ -99,4 +99,580 @@ theorem gapAdd_refines (hS : StreamOK S) (rec : Graph → Block → Res)
         (fun iv hiv => by have := hafter iv hiv; omega)]
       rfl
 
+
+theorem transfer_eq (from_ to_ : Nat) (succ : List Nat) (E : Edges) :
+    succ.foldl (fun es t => removeEdge (addEdge es (to_, t)) (from_, t)) E = transfer from_ to_ succ E := rfl
+
+theorem cutAdd_refines (hS : StreamOK S) (f : Nat)
+    (ih : ∀ (ivs : List Iv) (E : Edges) (s e : Nat), IvsOK S.length ivs → s < e → e ≤ S.length →
+      addVertex f ⟨rep S ivs, E⟩ (run S s e) = lift S (addrOf S s) (absAdd (addrOf S) f (ivs, E) s e))
+    (ivs pre0 post : List Iv) (E : Edges) (os oe s e : Nat) (hivs : ivs = pre0 ++ (os, oe) :: post)
+    (hok : IvsOK S.length ivs) (hos : os ≤ s) (hin : s < oe) (hse : s < e) (he : e ≤ S.length)
+    (hpost : ∀ iv ∈ post, s < iv.1) :
+    cutAdd (addVertex f) ⟨rep S ivs, E⟩ (run S s e) (addrOf S s) pre0.length (repMo S (os, oe)) =
+      lift S (addrOf S s)
+        (if os = s then
+          if oe < e then
+            match absAdd (addrOf S) f (ivs, E) oe e with
+            | some (ivs2, E2) => some (ivs2, addEdge E2 (addrOf S s, addrOf S oe))
+            | none => none
+          else some (ivs, E)
+        else
+          match absGap (addrOf S) (absAdd (addrOf S) f) E s (if e < oe then oe else e) (pre0 ++ [(os, s)]) post with
+          | some (ivs2, E2) =>
+            some (ivs2, addEdge (transfer (addrOf S os) (addrOf S s)
+              ((E.filter (fun x => x.1 == addrOf S os)).map (·.2)) E2) (addrOf S os, addrOf S s))
+          | none => none) := by
+  have hok' : IvsOK S.length (pre0 ++ (os, oe) :: post) := hivs ▸ hok
+  have hmm := hok'.mem (show (os, oe) ∈ pre0 ++ (os, oe) :: post by simp)
+  simp at hmm
+  have hpw := hok'.2
+  rw [List.pairwise_append] at hpw
+  obtain ⟨_, hpw2, hpw3⟩ := hpw
+  rw [List.pairwise_cons] at hpw2
+  have hp0 : ∀ a ∈ pre0, a.2 ≤ os := fun a ha => hpw3 a ha (os, oe) (by simp)
+  have haddr : address? (run S os oe) = some (addrOf S os) := address_run hS os oe hmm.1 hmm.2
+  have hblk : (repMo S (os, oe)).blk = run S os oe := rfl
+  have hva : (repMo S (os, oe)).vaddr = addrOf S os := rfl
+  unfold cutAdd
+  simp only [hblk, hva, haddr]
+  by_cases hsame : os = s
+  · subst hsame
+    simp only [↓reduceIte]
+    have hlenc : (blen (run S os e) > blen (run S os oe)) ↔ oe < e :=
+      blen_run_lt_iff hS os oe e (by omega) (by omega) hmm.2 he
+    by_cases hlong : oe < e
+    · have := hlenc.mpr hlong
+      simp only [this, if_true, hlong]
+      rw [getitem_run hS os oe e (by omega) hlong he]
+      simp only
+      rw [ih ivs E oe e hok hlong he]
+      cases absAdd (addrOf S) f (ivs, E) oe e with
+      | none => rfl
+      | some r => obtain ⟨ivs2, E2⟩ := r; rfl
+    · have : ¬ (blen (run S os e) > blen (run S os oe)) := fun h => hlong (hlenc.mp h)
+      simp only [this, if_false, hlong]
+      rfl
+  · have hos' : os < s := by omega
+    have hne : ¬ (some (addrOf S os) = some (addrOf S s)) := by
+      intro h
+      injection h with h
+      exact hsame (addrOf_inj hS os s (by omega) (by omega) h)
+    simp only [hne, if_false, hsame]
+    rw [cut_run hS os s oe (by omega) hin hmm.2]
+    simp only
+    have hnl : ¬ (oe - s = 0) := by omega
+    simp only [hnl, if_false]
+    have htail : (run S os oe).drop ((run S os oe).length - (oe - s)) = run S s oe := by
+      rw [run_length os oe hmm.2]
+      have := run_drop (S := S) os s oe (by omega)
+      rw [show oe - os - (oe - s) = s - os by omega]
+      exact this
+    rw [htail]
+    have hv1 : (if blen (run S s oe) > blen (run S s e) then run S s oe else run S s e) =
+        run S s (if e < oe then oe else e) := by
+      have := blen_run_lt_iff hS s e oe (by omega) (by omega) he hmm.2
+      by_cases h : e < oe
+      · simp [h, this.mpr h]
+      · have h' : ¬ (blen (run S s oe) > blen (run S s e)) := fun hh => h (this.mp hh)
+        simp [h, h']
+    rw [hv1]
+    have hset : (rep S ivs).set pre0.length { vaddr := addrOf S os, blk := run S os s } =
+        rep S ((pre0 ++ [(os, s)]) ++ post) := by
+      rw [hivs, rep_append, ← rep_length (S := S) pre0]
+      simp [repMo]
+    have hset' : (rep S ivs).set pre0.length { repMo S (os, oe) with blk := run S os s } =
+        rep S ((pre0 ++ [(os, s)]) ++ post) := hset
+    first | rw [hset] | rw [hset']
+    have hok1 : IvsOK S.length ((pre0 ++ [(os, s)]) ++ post) := by
+      have := ivsOK_shrink hok' hos' (by omega)
+      simpa using this
+    have hloc1 : locate (rep S ((pre0 ++ [(os, s)]) ++ post)) (addrOf S s) = some pre0.length := by
+      have := locate_rep_some hS pre0 post (os, s) s (by simpa using hok1) (by omega) (by simp; omega) hpost
+      simpa using this
+    rw [hloc1]
+    have he1 : (if e < oe then oe else e) ≤ S.length := by split <;> omega
+    have hse1 : s < (if e < oe then oe else e) := by split <;> omega
+    have hpre1 : ∀ iv ∈ pre0 ++ [(os, s)], iv.2 ≤ s := by
+      intro iv hiv
+      rcases List.mem_append.mp hiv with hx | hx
+      · have := hp0 iv hx; omega
+      · simp at hx; subst hx; simp
+    rw [gapAdd_refines hS (addVertex f) (absAdd (addrOf S) f) ih (pre0 ++ [(os, s)]) post E s _ hok1 hse1 he1
+      hpre1 hpost (some pre0.length) (by simp [nextIdx])]
+    cases absGap (addrOf S) (absAdd (addrOf S) f) E s (if e < oe then oe else e) (pre0 ++ [(os, s)]) post with
+    | none => rfl
+    | some r => obtain ⟨ivs2, E2⟩ := r; rfl
+
+theorem addVertex_refines (hS : StreamOK S) :
+    ∀ (fuel : Nat) (ivs : List Iv) (E : Edges) (s e : Nat), IvsOK S.length ivs → s < e → e ≤ S.length →
+      addVertex fuel ⟨rep S ivs, E⟩ (run S s e) = lift S (addrOf S s) (absAdd (addrOf S) fuel (ivs, E) s e) := by
+  intro fuel
+  induction fuel with
+  | zero => intro ivs E s e _ _ _; rfl
+  | succ f ih =>
+    intro ivs E s e hok hse he
+    have hsplit : ivs.takeWhile (fun iv => decide (iv.1 ≤ s)) ++ ivs.dropWhile (fun iv => decide (iv.1 ≤ s)) = ivs :=
+      List.takeWhile_append_dropWhile
+    have hpost := post_starts (s := s) ivs hok.2 (fun iv hiv => (hok.mem hiv).1)
+    unfold addVertex absAdd
+    simp only
+    rw [address_run hS s e hse he]
+    simp only
+    generalize hpre : ivs.takeWhile (fun iv => decide (iv.1 ≤ s)) = pre at hsplit
+    generalize hpo : ivs.dropWhile (fun iv => decide (iv.1 ≤ s)) = post at hsplit hpost
+    have hpre_le : ∀ iv ∈ pre, iv.1 ≤ s := by
+      intro iv hiv
+      rw [← hpre] at hiv
+      simpa using mem_takeWhile_pred _ _ _ hiv
+    cases hl : pre.getLast? with
+    | none =>
+      have : pre = [] := List.getLast?_eq_none_iff.mp hl
+      subst this
+      simp only [List.nil_append] at hsplit
+      subst hsplit
+      rw [locate_rep_none hS post s hok (by omega) hpost]
+      simp only
+      have := gapAdd_refines hS (addVertex f) (absAdd (addrOf S) f) ih
+        [] post E s e (by simpa using hok) hse he (by simp) hpost none rfl
+      simpa using this
+    | some last =>
+      obtain ⟨os, oe⟩ := last
+      simp only
+      have hdec := getLast?_decomp hl
+      have hos : os ≤ s := hpre_le (os, oe) (by rw [hdec]; simp)
+      have heq : ivs = pre.dropLast ++ (os, oe) :: post := by
+        rw [← hsplit]
+        conv => lhs; rw [hdec]
+        simp
+      have hok' : IvsOK S.length (pre.dropLast ++ (os, oe) :: post) := by rw [← heq]; exact hok
+      have hmm := hok'.mem (show (os, oe) ∈ pre.dropLast ++ (os, oe) :: post by simp)
+      simp at hmm
+      have hpw := hok'.2
+      rw [List.pairwise_append] at hpw
+      obtain ⟨_, _, hpw3⟩ := hpw
+      have hp0 : ∀ a ∈ pre.dropLast, a.2 ≤ os := fun a ha => hpw3 a ha (os, oe) (by simp)
+      have hloc : locate (rep S ivs) (addrOf S s) = some pre.dropLast.length := by
+        rw [heq]; exact locate_rep_some hS pre.dropLast post (os, oe) s hok' (by omega) hos hpost
+      rw [hloc]
+      simp only
+      have hget : (rep S ivs)[pre.dropLast.length]? = some (repMo S (os, oe)) := by
+        rw [heq, rep_append, ← rep_length (S := S) pre.dropLast, List.getElem?_append_right (Nat.le_refl _)]
+        simp
+      rw [hget]
+      simp only
+      have hcont : (repMo S (os, oe)).contains (addrOf S s) = decide (s < oe) := by
+        rw [repMo_contains hS (os, oe) s (by simp; omega) (by simp; omega) (by omega)]
+        simp [hos]
+      rw [hcont]
+      have hlenpre : pre.length = pre.dropLast.length + 1 := by
+        conv => lhs; rw [hdec]
+        simp
+      by_cases hin : s < oe
+      · simp only [hin, decide_true, if_true]
+        exact cutAdd_refines hS f ih ivs pre.dropLast post E os oe s e heq hok hos hin hse he hpost
+      · simp only [hin, decide_false, Bool.false_eq_true, if_false]
+        have hivs : ivs = pre ++ post := hsplit.symm
+        rw [hivs]
+        apply gapAdd_refines hS (addVertex f) (absAdd (addrOf S) f) ih pre post E s e (hivs ▸ hok) hse he _ hpost
+        · rw [hlenpre]; rfl
+        · intro iv hiv
+          rw [hdec] at hiv
+          rcases List.mem_append.mp hiv with hx | hx
+          · have := hp0 iv hx; omega
+          · simp at hx; subst hx; simp; omega
+
+
+/-! ## from index space back to instructions -/
+
+theorem mem_run {s e : Nat} {x : Instr} (he : e ≤ S.length) :
+    x ∈ run S s e ↔ ∃ k, s ≤ k ∧ k < e ∧ S[k]? = some x := by
+  rw [List.mem_iff_getElem]
+  constructor
+  · rintro ⟨i, hi, rfl⟩
+    rw [run_length s e he] at hi
+    refine ⟨s + i, by omega, by omega, ?_⟩
+    rw [run_getElem s e i he hi]
+    simp
+  · rintro ⟨k, h1, h2, h3⟩
+    have hk : k < S.length := by omega
+    rw [List.getElem?_eq_getElem hk] at h3
+    injection h3 with h3
+    refine ⟨k - s, by rw [run_length s e he]; omega, ?_⟩
+    rw [run_getElem s e (k - s) he (by omega)]
+    rw [← h3]
+    congr 1
+    omega
+
+theorem stream_index_unique (hS : StreamOK S) {i j : Nat} {x : Instr}
+    (hi : S[i]? = some x) (hj : S[j]? = some x) : i = j := by
+  have h1 : i < S.length := by
+    apply Nat.lt_of_not_le; intro h; rw [List.getElem?_eq_none h] at hi; cases hi
+  have h2 : j < S.length := by
+    apply Nat.lt_of_not_le; intro h; rw [List.getElem?_eq_none h] at hj; cases hj
+  rw [List.getElem?_eq_getElem h1] at hi
+  rw [List.getElem?_eq_getElem h2] at hj
+  injection hi with hi
+  injection hj with hj
+  have a1 := addrOf_getElem hS i h1
+  have a2 := addrOf_getElem hS j h2
+  rw [hi] at a1
+  rw [hj] at a2
+  exact addrOf_inj hS i j (by omega) (by omega) (a1.symm.trans a2)
+
+theorem mem_flatten_rep {ivs : List Iv} (hok : IvsOK S.length ivs) (x : Instr) :
+    x ∈ ((rep S ivs).map (·.blk)).flatten ↔ ∃ k, cov ivs k ∧ S[k]? = some x := by
+  rw [List.mem_flatten]
+  constructor
+  · rintro ⟨l, hl, hx⟩
+    simp only [rep, List.map_map, List.mem_map] at hl
+    obtain ⟨iv, hiv, rfl⟩ := hl
+    have hm := hok.mem hiv
+    simp only [Function.comp, repMo] at hx
+    obtain ⟨k, h1, h2, h3⟩ := (mem_run hm.2).mp hx
+    exact ⟨k, ⟨iv, hiv, h1, h2⟩, h3⟩
+  · rintro ⟨k, ⟨iv, hiv, h1, h2⟩, h3⟩
+    have hm := hok.mem hiv
+    refine ⟨run S iv.1 iv.2, ?_, (mem_run hm.2).mpr ⟨k, h1, h2, h3⟩⟩
+    simp only [rep, List.map_map, List.mem_map]
+    exact ⟨iv, hiv, rfl⟩
+
+theorem run_sorted (hS : StreamOK S) (s e : Nat) (he : e ≤ S.length) :
+    (run S s e).Pairwise (fun x y => x.addr < y.addr) := by
+  rw [List.pairwise_iff_getElem]
+  intro i j hi hj hij
+  rw [run_length s e he] at hi hj
+  rw [run_getElem s e i he hi, run_getElem s e j he hj, addrOf_getElem hS, addrOf_getElem hS]
+  exact addrOf_lt hS _ _ (by omega) (by omega)
+
+theorem flatten_rep_sorted (hS : StreamOK S) {ivs : List Iv} (hok : IvsOK S.length ivs) :
+    (((rep S ivs).map (·.blk)).flatten).Pairwise (fun x y => x.addr < y.addr) := by
+  rw [List.pairwise_flatten]
+  constructor
+  · intro l hl
+    simp only [rep, List.map_map, List.mem_map] at hl
+    obtain ⟨iv, hiv, rfl⟩ := hl
+    exact run_sorted hS _ _ (hok.mem hiv).2
+  · simp only [rep, List.map_map]
+    rw [List.pairwise_map]
+    have hmem : ∀ iv ∈ ivs, iv.2 ≤ S.length := fun iv hiv => (hok.mem hiv).2
+    have hp := hok.2
+    clear hok
+    induction hp with
+    | nil => exact List.Pairwise.nil
+    | cons hhd htl ih =>
+      rename_i a l
+      refine List.Pairwise.cons ?_ (ih (fun iv hiv => hmem iv (List.mem_cons_of_mem _ hiv)))
+      intro b hb x hx y hy
+      simp only [Function.comp, repMo] at hx hy
+      obtain ⟨k1, _, g2, g3⟩ := (mem_run (hmem a (by simp))).mp hx
+      obtain ⟨k2, f1, f2, f3⟩ := (mem_run (hmem b (List.mem_cons_of_mem _ hb))).mp hy
+      have := hhd b hb
+      have hk1 : k1 < S.length := by have := hmem a (by simp); omega
+      have hk2 : k2 < S.length := by have := hmem b (List.mem_cons_of_mem _ hb); omega
+      rw [List.getElem?_eq_getElem hk1] at g3
+      rw [List.getElem?_eq_getElem hk2] at f3
+      injection g3 with g3
+      injection f3 with f3
+      rw [← g3, ← f3, addrOf_getElem hS, addrOf_getElem hS]
+      exact addrOf_lt hS _ _ (by omega) (by omega)
+
+theorem rep_pairwise {ivs : List Iv} (hok : IvsOK S.length ivs) :
+    (rep S ivs).Pairwise (fun m1 m2 => m1.end ≤ m2.vaddr) := by
+  simp only [rep]
+  rw [List.pairwise_map]
+  have hmem := hok.1
+  have hp := hok.2
+  clear hok
+  induction hp with
+  | nil => exact List.Pairwise.nil
+  | cons hhd htl ih =>
+    rename_i a l
+    refine List.Pairwise.cons ?_ (ih (fun iv hiv => hmem iv (List.mem_cons_of_mem _ hiv)))
+    intro b hb
+    have ha := hmem a (by simp)
+    have hbm := hmem b (List.mem_cons_of_mem _ hb)
+    rw [repMo_end a (by omega) ha.2]
+    exact addrOf_le _ _ (hhd b hb) (by omega)
+
+/-! ## the invariant over an insertion history -/
+
+structure HInv (A : Nat → Nat) (n : Nat) (H : List Iv) (ivs : List Iv) (E : Edges) : Prop where
+  ok : IvsOK n ivs
+  covers : ∀ k, cov ivs k ↔ ∃ h ∈ H, h.1 ≤ k ∧ k < h.2
+  edges : ∀ p, (∃ a, (a, p) ∈ ivs) → (∃ b, (p, b) ∈ ivs) → (∃ h ∈ H, h.1 < p ∧ p < h.2) → fall A ivs E p
+
+theorem hinv_empty (A : Nat → Nat) (n : Nat) : HInv A n [] [] [] :=
+  ⟨ivsOK_nil, by simp [cov], by simp⟩
+
+theorem hinv_step {A : Nat → Nat} {n : Nat} {H ivs ivs' : List Iv} {E E' : Edges} {s e : Nat}
+    (h : HInv A n H ivs E) (sp : Spec A n ivs E s e ivs' E') : HInv A n ((s, e) :: H) ivs' E' := by
+  refine ⟨sp.ok, ?_, ?_⟩
+  · intro k
+    rw [sp.covers, h.covers]
+    constructor
+    · rintro (⟨x, hx, g⟩ | g)
+      · exact ⟨x, List.mem_cons_of_mem _ hx, g⟩
+      · exact ⟨(s, e), by simp, g⟩
+    · rintro ⟨x, hx, g⟩
+      rcases List.mem_cons.mp hx with rfl | hx
+      · exact Or.inr g
+      · exact Or.inl ⟨x, hx, g⟩
+  · rintro p ⟨a, ha⟩ ⟨b, hb⟩ ⟨x, hx, g1, g2⟩
+    rcases List.mem_cons.mp hx with rfl | hx
+    · exact sp.espan p g1 g2 ⟨a, ha⟩ ⟨b, hb⟩
+    · have c1 : cov ivs (p - 1) := (h.covers _).mpr ⟨x, hx, by omega, by omega⟩
+      have c2 : cov ivs p := (h.covers _).mpr ⟨x, hx, by omega, g2⟩
+      by_cases hst : ∃ b0, (p, b0) ∈ ivs
+      · obtain ⟨b0, hb0⟩ := hst
+        obtain ⟨a0, ha0⟩ := h.ok.pred_block hb0 c1 (by omega)
+        exact sp.epres p (h.edges p ⟨a0, ha0⟩ ⟨b0, hb0⟩ ⟨x, hx, g1, g2⟩)
+      · obtain ⟨iv, hiv, f1, f2⟩ := c2
+        have : iv.1 ≠ p := by
+          intro heq
+          exact hst ⟨iv.2, by rw [← heq]; exact hiv⟩
+        exact sp.ecut p ⟨iv, hiv, by omega, f2⟩ ⟨b, hb⟩
+
+theorem addAll_spec (hS : StreamOK S) :
+    ∀ (H Hdone ivs : List Iv) (E : Edges), (∀ h ∈ H, h.1 < h.2 ∧ h.2 ≤ S.length) →
+      HInv (addrOf S) S.length Hdone ivs E →
+      ∃ ivs' E', addAll ⟨rep S ivs, E⟩ (H.map (fun h => run S h.1 h.2)) = some ⟨rep S ivs', E'⟩ ∧
+        HInv (addrOf S) S.length (H.reverse ++ Hdone) ivs' E' := by
+  intro H
+  induction H with
+  | nil => intro Hdone ivs E _ hinv; exact ⟨ivs, E, rfl, by simpa using hinv⟩
+  | cons h H ih =>
+    intro Hdone ivs E hH hinv
+    obtain ⟨s, e⟩ := h
+    have hse := hH (s, e) (by simp)
+    simp only at hse
+    have hA : ∀ a b, a ≤ S.length → b ≤ S.length → addrOf S a = addrOf S b → a = b :=
+      fun a b ha hb => addrOf_inj hS a b ha hb
+    obtain ⟨ivs1, E1, hr, sp⟩ := absAdd_spec (addrOf S) hA ((run S s e).length + 1) ivs E s e hinv.ok hse.1 hse.2
+      (by rw [run_length s e hse.2]; omega)
+    have hstep := hinv_step hinv sp
+    obtain ⟨ivs', E', hr', hinv'⟩ := ih ((s, e) :: Hdone) ivs1 E1 (fun x hx => hH x (List.mem_cons_of_mem _ hx)) hstep
+    refine ⟨ivs', E', ?_, ?_⟩
+    · simp only [List.map_cons, addAll]
+      rw [addVertex_refines hS _ ivs E s e hinv.ok hse.1 hse.2, hr]
+      simp only [lift]
+      exact hr'
+    · simpa using hinv'
+
+
+/-! ## assembling the statements about histories of blocks -/
+
+/-- a block cut from the instruction stream `S`: a non-empty contiguous part of it -/
+def IsRun (S : List Instr) (v : Block) : Prop := v ≠ [] ∧ v <:+: S
+
+theorem hist_indices (hist : List Block) (hh : ∀ v ∈ hist, IsRun S v) :
+    ∃ H : List Iv, (∀ h ∈ H, h.1 < h.2 ∧ h.2 ≤ S.length) ∧ hist = H.map (fun h => run S h.1 h.2) := by
+  induction hist with
+  | nil => exact ⟨[], by simp, rfl⟩
+  | cons v r ih =>
+    obtain ⟨H, h1, h2⟩ := ih (fun v hv => hh v (List.mem_cons_of_mem _ hv))
+    obtain ⟨hne, hin⟩ := hh v (by simp)
+    obtain ⟨s, e, hse, he, rfl⟩ := isInfix_run v hne hin
+    refine ⟨(s, e) :: H, ?_, by simp [h2]⟩
+    intro h hm
+    rcases List.mem_cons.mp hm with rfl | hm
+    · exact ⟨hse, he⟩
+    · exact h1 h hm
+
+theorem history_result (hS : StreamOK S) (hist : List Block) (hh : ∀ v ∈ hist, IsRun S v) :
+    ∃ (H ivs : List Iv) (E : Edges), (∀ h ∈ H, h.1 < h.2 ∧ h.2 ≤ S.length) ∧
+      hist = H.map (fun h => run S h.1 h.2) ∧
+      addAll Graph.empty hist = some ⟨rep S ivs, E⟩ ∧ HInv (addrOf S) S.length H.reverse ivs E := by
+  obtain ⟨H, h1, h2⟩ := hist_indices hist hh
+  obtain ⟨ivs, E, hr, hinv⟩ := addAll_spec hS H [] [] [] h1 (hinv_empty _ _)
+  refine ⟨H, ivs, E, h1, h2, ?_, by simpa using hinv⟩
+  rw [h2]
+  exact hr
+
+theorem partition_core (hS : StreamOK S) (hist : List Block) (hh : ∀ v ∈ hist, IsRun S v) :
+    ∃ g, addAll Graph.empty hist = some g ∧
+      g.support.Pairwise (fun m1 m2 => m1.end ≤ m2.vaddr) ∧
+      (∀ m ∈ g.support, IsRun S m.blk ∧ address? m.blk = some m.vaddr) ∧
+      (∀ x, x ∈ (g.support.map (·.blk)).flatten ↔ ∃ v ∈ hist, x ∈ v) ∧
+      ((g.support.map (·.blk)).flatten).Pairwise (fun x y => x.addr < y.addr) := by
+  obtain ⟨H, ivs, E, hH, hhist, hr, hinv⟩ := history_result hS hist hh
+  refine ⟨_, hr, rep_pairwise hinv.ok, ?_, ?_, flatten_rep_sorted hS hinv.ok⟩
+  · intro m hm
+    simp only [rep, List.mem_map] at hm
+    obtain ⟨iv, hiv, rfl⟩ := hm
+    have hmm := hinv.ok.mem hiv
+    refine ⟨⟨?_, run_isInfix _ _ (by omega)⟩, address_run hS _ _ hmm.1 hmm.2⟩
+    intro h0
+    have := (run_eq_nil_iff (S := S) iv.1 iv.2 hmm.2).mp h0
+    omega
+  · intro x
+    simp only
+    rw [mem_flatten_rep hinv.ok]
+    constructor
+    · rintro ⟨k, hc, hk⟩
+      obtain ⟨h, hm, g1, g2⟩ := (hinv.covers k).mp hc
+      have hm' : h ∈ H := by simpa using hm
+      refine ⟨run S h.1 h.2, ?_, (mem_run (hH h hm').2).mpr ⟨k, g1, g2, hk⟩⟩
+      rw [hhist]; exact List.mem_map.mpr ⟨h, hm', rfl⟩
+    · rintro ⟨v, hv, hx⟩
+      rw [hhist] at hv
+      obtain ⟨h, hm, rfl⟩ := List.mem_map.mp hv
+      obtain ⟨k, g1, g2, hk⟩ := (mem_run (hH h hm).2).mp hx
+      exact ⟨k, (hinv.covers k).mpr ⟨h, by simpa using hm, g1, g2⟩, hk⟩
+
+theorem run_head? (s e : Nat) (hse : s < e) (he : e ≤ S.length) : (run S s e).head? = S[s]? := by
+  rw [List.head?_eq_getElem?]
+  have hl : 0 < (run S s e).length := by rw [run_length s e he]; omega
+  rw [List.getElem?_eq_getElem hl, run_getElem s e 0 he (by omega)]
+  simp
+
+theorem run_getLast? (s e : Nat) (hse : s < e) (he : e ≤ S.length) : (run S s e).getLast? = S[e - 1]? := by
+  rw [List.getLast?_eq_getElem?]
+  have hl : (run S s e).length - 1 < (run S s e).length := by rw [run_length s e he]; omega
+  rw [List.getElem?_eq_getElem hl]
+  have : (run S s e)[(run S s e).length - 1] = S[s + (e - s - 1)]'(by omega) := by
+    have h2 : (run S s e).length - 1 = e - s - 1 := by rw [run_length s e he]
+    simp only [h2]
+    exact run_getElem s e (e - s - 1) he (by omega)
+  rw [this]
+  rw [List.getElem?_eq_getElem (by omega)]
+  congr 2
+  omega
+
+theorem fallthrough_core (hS : StreamOK S) (hist : List Block) (hh : ∀ v ∈ hist, IsRun S v) :
+    ∃ g, addAll Graph.empty hist = some g ∧
+      ∀ m1 ∈ g.support, ∀ m2 ∈ g.support, m1.end = m2.vaddr →
+        (∃ v ∈ hist, ∃ x y, m1.blk.getLast? = some x ∧ m2.blk.head? = some y ∧ x ∈ v ∧ y ∈ v) →
+        (m1.vaddr, m2.vaddr) ∈ g.edges := by
+  obtain ⟨H, ivs, E, hH, hhist, hr, hinv⟩ := history_result hS hist hh
+  refine ⟨_, hr, ?_⟩
+  intro m1 hm1 m2 hm2 hend ⟨v, hv, x, y, hx, hy, hxv, hyv⟩
+  simp only [rep, List.mem_map] at hm1 hm2
+  obtain ⟨iv1, hiv1, rfl⟩ := hm1
+  obtain ⟨iv2, hiv2, rfl⟩ := hm2
+  have mm1 := hinv.ok.mem hiv1
+  have mm2 := hinv.ok.mem hiv2
+  rw [repMo_end iv1 (by omega) mm1.2] at hend
+  have hp : iv1.2 = iv2.1 := addrOf_inj hS _ _ mm1.2 (by omega) hend
+  rw [hhist] at hv
+  obtain ⟨h, hm, rfl⟩ := List.mem_map.mp hv
+  have hmh := hH h hm
+  simp only [repMo] at hx hy
+  rw [run_getLast? iv1.1 iv1.2 mm1.1 mm1.2] at hx
+  rw [run_head? iv2.1 iv2.2 mm2.1 mm2.2] at hy
+  obtain ⟨k1, a1, a2, a3⟩ := (mem_run hmh.2).mp hxv
+  obtain ⟨k2, b1, b2, b3⟩ := (mem_run hmh.2).mp hyv
+  have e1 := stream_index_unique hS a3 hx
+  have e2 := stream_index_unique hS b3 hy
+  have hfall := hinv.edges iv2.1 ⟨iv1.1, by rw [← hp]; exact hiv1⟩ ⟨iv2.2, hiv2⟩
+    ⟨h, by simpa using hm, by omega, by omega⟩
+  obtain ⟨s1, e2', f1, f2, f3⟩ := hfall
+  have : s1 = iv1.1 := hinv.ok.end_unique f1 (by rw [← hp]; exact hiv1)
+  subst this
+  exact f3
+
+
+/-! ## get_with_address -/
+
+theorem getWithAddress_rep_some (hS : StreamOK S) {ivs : List Iv} (E : Edges) (hok : IvsOK S.length ivs)
+    {iv : Iv} (hiv : iv ∈ ivs) {k : Nat} (h1 : iv.1 ≤ k) (h2 : k < iv.2) :
+    getWithAddress ⟨rep S ivs, E⟩ (addrOf S k) = some (repMo S iv) := by
+  obtain ⟨pre, post, rfl⟩ := List.append_of_mem hiv
+  have hm := hok.mem hiv
+  have hpw := hok.2
+  rw [List.pairwise_append] at hpw
+  have hpw2 := hpw.2.1
+  rw [List.pairwise_cons] at hpw2
+  have hpost : ∀ x ∈ post, k < x.1 := fun x hx => by have := hpw2.1 x hx; omega
+  unfold getWithAddress
+  simp only
+  rw [locate_rep_some hS pre post iv k hok (by omega) h1 hpost]
+  simp only
+  have hget : (rep S (pre ++ iv :: post))[pre.length]? = some (repMo S iv) := by
+    rw [rep_append, ← rep_length (S := S) pre, List.getElem?_append_right (Nat.le_refl _)]
+    simp
+  rw [hget]
+  simp only
+  rw [repMo_contains hS iv k (by omega) hm.2 (by omega)]
+  simp [h1, h2]
+
+theorem getWithAddress_rep_none (hS : StreamOK S) {ivs : List Iv} (E : Edges) (hok : IvsOK S.length ivs)
+    {k : Nat} (hk : k ≤ S.length) (hc : ¬ cov ivs k) :
+    getWithAddress ⟨rep S ivs, E⟩ (addrOf S k) = none := by
+  have hsplit : ivs.takeWhile (fun iv => decide (iv.1 ≤ k)) ++ ivs.dropWhile (fun iv => decide (iv.1 ≤ k)) = ivs :=
+    List.takeWhile_append_dropWhile
+  have hpost := post_starts (s := k) ivs hok.2 (fun iv hiv => (hok.mem hiv).1)
+  generalize hpre : ivs.takeWhile (fun iv => decide (iv.1 ≤ k)) = pre at hsplit
+  generalize hpo : ivs.dropWhile (fun iv => decide (iv.1 ≤ k)) = post at hsplit hpost
+  have hpre_le : ∀ iv ∈ pre, iv.1 ≤ k := by
+    intro iv hiv
+    rw [← hpre] at hiv
+    simpa using mem_takeWhile_pred _ _ _ hiv
+  unfold getWithAddress
+  simp only
+  cases hl : pre.getLast? with
+  | none =>
+    have : pre = [] := List.getLast?_eq_none_iff.mp hl
+    subst this
+    simp only [List.nil_append] at hsplit
+    subst hsplit
+    rw [locate_rep_none hS post k hok hk hpost]
+  | some last =>
+    obtain ⟨os, oe⟩ := last
+    have hdec := getLast?_decomp hl
+    have hos : os ≤ k := hpre_le (os, oe) (by rw [hdec]; simp)
+    have heq : ivs = pre.dropLast ++ (os, oe) :: post := by
+      rw [← hsplit]
+      conv => lhs; rw [hdec]
+      simp
+    have hok' : IvsOK S.length (pre.dropLast ++ (os, oe) :: post) := by rw [← heq]; exact hok
+    have hmm := hok'.mem (show (os, oe) ∈ pre.dropLast ++ (os, oe) :: post by simp)
+    simp at hmm
+    have hoe : oe ≤ k := by
+      apply Nat.le_of_not_lt
+      intro hlt
+      exact hc ⟨(os, oe), by rw [heq]; simp, hos, hlt⟩
+    rw [heq, locate_rep_some hS pre.dropLast post (os, oe) k hok' hk hos hpost]
+    simp only
+    have hget : (rep S (pre.dropLast ++ (os, oe) :: post))[pre.dropLast.length]? = some (repMo S (os, oe)) := by
+      rw [rep_append, ← rep_length (S := S) pre.dropLast, List.getElem?_append_right (Nat.le_refl _)]
+      simp
+    rw [hget]
+    simp only
+    rw [repMo_contains hS (os, oe) k (by simp; omega) (by simp; omega) hk]
+    simp
+    omega
+
+theorem getWithAddress_core (hS : StreamOK S) (hist : List Block) (hh : ∀ v ∈ hist, IsRun S v) :
+    ∃ g, addAll Graph.empty hist = some g ∧
+      ∀ x ∈ S,
+        ((∃ v ∈ hist, x ∈ v) → ∃ m ∈ g.support, getWithAddress g x.addr = some m ∧ x ∈ m.blk) ∧
+        ((¬ ∃ v ∈ hist, x ∈ v) → getWithAddress g x.addr = none) := by
+  obtain ⟨H, ivs, E, hH, hhist, hr, hinv⟩ := history_result hS hist hh
+  refine ⟨_, hr, ?_⟩
+  intro x hx
+  obtain ⟨k, hk, rfl⟩ := List.getElem_of_mem hx
+  rw [addrOf_getElem hS k hk]
+  have hcov : cov ivs k ↔ ∃ v ∈ hist, S[k] ∈ v := by
+    rw [hinv.covers]
+    constructor
+    · rintro ⟨h, hm, g1, g2⟩
+      have hm' : h ∈ H := by simpa using hm
+      refine ⟨run S h.1 h.2, by rw [hhist]; exact List.mem_map.mpr ⟨h, hm', rfl⟩, ?_⟩
+      exact (mem_run (hH h hm').2).mpr ⟨k, g1, g2, by simp [hk]⟩
+    · rintro ⟨v, hv, hxv⟩
+      rw [hhist] at hv
+      obtain ⟨h, hm, rfl⟩ := List.mem_map.mp hv
+      obtain ⟨k', g1, g2, g3⟩ := (mem_run (hH h hm).2).mp hxv
+      have : k' = k := stream_index_unique hS g3 (by simp [hk])
+      subst this
+      exact ⟨h, by simpa using hm, g1, g2⟩
+  constructor
+  · intro hv
+    obtain ⟨iv, hiv, g1, g2⟩ := hcov.mpr hv
+    refine ⟨repMo S iv, List.mem_map.mpr ⟨iv, hiv, rfl⟩, getWithAddress_rep_some hS E hinv.ok hiv g1 g2, ?_⟩
+    exact (mem_run (hinv.ok.mem hiv).2).mpr ⟨k, g1, g2, by simp [hk]⟩
+  · intro hv
+    exact getWithAddress_rep_none hS E hinv.ok (by omega) (fun hc => hv (hcov.mp hc))
+
 end Amoco.Cfg
